@@ -35,13 +35,17 @@ def _is_lock_with(node):
 
 
 def method_locked(fn):
-    """True iff every statement of the method that reads or assigns self.state is inside `with self.use_lock`."""
+    """True iff every statement of the method that reads or assigns self.state is inside one and the same `with self.use_lock` block."""
     ok = True
     touched = False
+    blocks = 0
     for stmt in fn.body:
         if _is_lock_with(stmt):
             if _assigns_state(stmt) or _reads_state(stmt):
                 touched = True
+                blocks += 1
+                if blocks > 1:      # read and write in different critical sections: not atomic
+                    ok = False
             continue
         if _assigns_state(stmt) or _reads_state(stmt):
             ok = False
@@ -122,11 +126,130 @@ def thread_local_stacks():
     return out
 
 
+ADAPTER_STACKS = [("einx/_src/adapter/torch/devicestack.py", "TorchDeviceStack", ("get_device", "_enter", "_exit")),
+                  ("einx/_src/adapter/arrayapi/namespacestack.py", "ArrayApiNamespaceStack", ("get_xp", "_enter", "_exit"))]
+
+
+def _is_threading_local_call(v):
+    return (isinstance(v, ast.Call) and isinstance(v.func, ast.Attribute) and v.func.attr == "local"
+            and isinstance(v.func.value, ast.Name) and v.func.value.id == "threading" and not v.args and not v.keywords)
+
+
+def _self_attr(node, attr=None):
+    return (isinstance(node, ast.Attribute) and isinstance(node.value, ast.Name) and node.value.id == "self"
+            and (attr is None or node.attr == attr))
+
+
+def adapter_stack_is_thread_local(cls, users):
+    """The context stack of an adapter class: `self.<holder> = threading.local()` in __init__ (and nowhere reassigned),
+    `_get_stack` returns `self.<holder>.stack`, every user method obtains the list through `self._get_stack()`, and no
+    other attribute of `self` holds a list.  Returns (holder-name or None, bool)."""
+    init = find_func(cls, "__init__")
+    gs = find_func(cls, "_get_stack")
+    if init is None or gs is None:
+        return None, False
+    ret = [n.value for n in ast.walk(gs) if isinstance(n, ast.Return)]
+    if len(ret) != 1 or not (isinstance(ret[0], ast.Attribute) and ret[0].attr == "stack" and _self_attr(ret[0].value)):
+        return None, False
+    holder = ret[0].value.attr
+    ok = False
+    for n in ast.walk(cls):
+        if isinstance(n, ast.Assign):
+            for t in n.targets:
+                if _self_attr(t, holder):
+                    if _is_threading_local_call(n.value) and any(n is m for m in ast.walk(init)) and not ok:
+                        ok = True
+                    else:
+                        return holder, False
+                elif _self_attr(t) and isinstance(n.value, (ast.List, ast.ListComp)):
+                    return holder, False       # some other list kept on the (shared) adapter object
+    for u in users:
+        fn = find_func(cls, u)
+        if fn is None:
+            return holder, False
+        calls = [n for n in ast.walk(fn) if isinstance(n, ast.Call) and _self_attr(n.func, "_get_stack")]
+        if not calls:
+            return holder, False
+    return holder, ok
+
+
+def adapter_stacks():
+    out, lost = [], []
+    for file, cname, users in ADAPTER_STACKS:
+        try:
+            cls = find_class(parse(file), cname)
+            holder, ok = adapter_stack_is_thread_local(cls, users) if cls is not None else (None, False)
+        except Exception:
+            holder, ok = None, False
+        if holder is None:
+            lost.append((f"registry:stack:{cname}", "context stack anchor not found"))
+        out.append((file, f"{cname}.{holder or '?'}", bool(ok)))
+    # retrace-warning flag of util/lru_cache.py
+    file = "einx/_src/util/lru_cache.py"
+    found = None
+    try:
+        for n in parse(file).body:
+            if isinstance(n, ast.Assign) and any(isinstance(t, ast.Name) and t.id == "_thread_local" for t in n.targets):
+                found = _is_threading_local_call(n.value)
+    except Exception:
+        pass
+    if found is None:
+        lost.append(("registry:stack:lru_cache._thread_local", "anchor not found"))
+    out.append((file, "_thread_local", bool(found)))
+    return out, lost
+
+
+def _is_sys_modules(e):
+    return isinstance(e, ast.Attribute) and e.attr == "modules" and isinstance(e.value, ast.Name) and e.value.id == "sys"
+
+
+def sys_modules_iterations(tree):
+    """Every loop / comprehension of backend.py over `sys.modules`: (function, iterates over a snapshot?).  Iterating over the
+    live dict raises RuntimeError when another thread imports a module meanwhile; `list(sys.modules)`, `tuple(..)`,
+    `sys.modules.copy()` are snapshots."""
+    out = []
+    for fn in ast.walk(tree):
+        if not isinstance(fn, (ast.FunctionDef, ast.AsyncFunctionDef)):
+            continue
+        for n in ast.walk(fn):
+            iters = []
+            if isinstance(n, (ast.For, ast.AsyncFor)):
+                iters.append(n.iter)
+            elif isinstance(n, (ast.ListComp, ast.SetComp, ast.GeneratorExp, ast.DictComp)):
+                iters += [g.iter for g in n.generators]
+            for it in iters:
+                live = _is_sys_modules(it) or (isinstance(it, ast.Call) and isinstance(it.func, ast.Attribute)
+                                               and it.func.attr in ("keys", "items", "values") and _is_sys_modules(it.func.value))
+                snap = (isinstance(it, ast.Call) and ((isinstance(it.func, ast.Name) and it.func.id in ("list", "tuple", "sorted", "set", "frozenset")
+                                                       and len(it.args) == 1 and _is_sys_modules(it.args[0]))
+                                                      or (isinstance(it.func, ast.Attribute) and it.func.attr == "copy" and _is_sys_modules(it.func.value))))
+                if live or snap:
+                    if (fn.name, not live) not in out:
+                        out.append((fn.name, not live))
+    return out
+
+
+def cache_wrappers():
+    """Names of the `functools` members that `util/lru_cache.py:lru_cache` wraps the function with (memoisation only)."""
+    fn = find_func(parse("einx/_src/util/lru_cache.py"), "lru_cache")
+    if fn is None:
+        return None
+    names = set()
+    for n in ast.walk(fn):
+        if isinstance(n, ast.Attribute) and isinstance(n.value, ast.Name) and n.value.id == "functools" and n.attr != "wraps":
+            names.add(n.attr)
+    # any other memo container built by hand inside lru_cache() is not functools
+    for n in ast.walk(fn):
+        if isinstance(n, (ast.Dict, ast.DictComp)) or (isinstance(n, ast.Call) and isinstance(n.func, ast.Name) and n.func.id in ("dict", "OrderedDict", "defaultdict")):
+            names.add("handmade-dict")
+    return sorted(names)
+
+
 def fallback():
     return render({m: False for m in METHODS}, False, None, {}, [])
 
 
-def render(locked, clears, lockkind, prios, tls):
+def render(locked, clears, lockkind, prios, tls, adapter=(), wrappers=(), modit=(("_check_new_imports", False),)):
     lines = ["import EinxModel.Registry.Model", "/-! GENERATED by tools/extract/registry.py from /repo -- do not edit. -/",
              "namespace Einx.Extracted", ""]
     lines.append(f"def registryCfg : Einx.Registry.Cfg := {{ registerClearsMemo := {lean_bool(bool(clears))} }}")
@@ -136,6 +259,12 @@ def render(locked, clears, lockkind, prios, tls):
     lines.append(f"def registryLockKind : String := {lean_str(str(lockkind))}")
     lines.append("def realPriorities : List (String × Int) := [" + ", ".join(f"({lean_str(k)}, {v})" for k, v in sorted(prios.items())) + "]")
     lines.append("def threadLocalStacks : List (String × String × Bool) := [" + ", ".join(f"({lean_str(a)}, {lean_str(b)}, {lean_bool(c)})" for a, b, c in tls) + "]")
+    lines.append("/-- Context stacks of the adapters and the retrace flag of the cache: (file, holder, is `threading.local()`). -/")
+    lines.append("def threadLocalAdapterStacks : List (String × String × Bool) := [" + ", ".join(f"({lean_str(a)}, {lean_str(b)}, {lean_bool(c)})" for a, b, c in adapter) + "]")
+    lines.append("/-- `functools` members used by `util/lru_cache.py:lru_cache` to memoise. -/")
+    lines.append("def cacheWrappers : List String := [" + ", ".join(lean_str(w) for w in wrappers) + "]")
+    lines.append("/-- Loops of frontend/backend.py over `sys.modules`: (function, over a snapshot rather than the live dict). -/")
+    lines.append("def sysModulesIterations : List (String × Bool) := [" + ", ".join(f"({lean_str(a)}, {lean_bool(b)})" for a, b in modit) + "]")
     lines += ["", "end Einx.Extracted", ""]
     return "\n".join(lines)
 
@@ -172,5 +301,20 @@ def extract():
         prios = {}
         lost.append(("registry:priorities", repr(e)))
     tls = thread_local_stacks()
-    facts = {"locked": locked, "registerClearsMemo": bool(clears), "lockKind": lock_kind(reg), "priorities": prios, "threadLocal": tls}
-    return render(locked, clears, lock_kind(reg), prios, tls), facts, lost
+    adapter, lost_a = adapter_stacks()
+    lost += lost_a
+    try:
+        wrappers = cache_wrappers()
+    except Exception:
+        wrappers = None
+    if wrappers is None:
+        lost.append(("registry:lru_cache", "lru_cache() not found"))
+        wrappers = []
+    if find_func(st, "_check_new_imports") is None:
+        lost.append(("registry:_check_new_imports", "_check_new_imports not found"))
+        modit = [("_check_new_imports", False)]
+    else:
+        modit = sys_modules_iterations(tree)
+    facts = {"locked": locked, "registerClearsMemo": bool(clears), "lockKind": lock_kind(reg), "priorities": prios, "threadLocal": tls,
+             "threadLocalAdapter": adapter, "cacheWrappers": wrappers, "sysModulesIterations": modit}
+    return render(locked, clears, lock_kind(reg), prios, tls, adapter, wrappers, modit), facts, lost
